@@ -236,7 +236,8 @@ class SourceMap {
       }
 
       columnNumber += decodeVLQ(stringCharIterator)
-      if (isSeparator(stringCharIterator.peek())) {
+      // a segment with one field maps to nothing; it can also be the very last segment
+      if (!stringCharIterator.hasNext() || isSeparator(stringCharIterator.peek())) {
         ArrayPrototypePush(this._mappings, [lineNumber, columnNumber])
         continue
       }
